@@ -46,7 +46,7 @@ def _raised(st) -> str | None:
 
 
 # ------------------------------------------------------------------ resolved_path -> Recipe
-# IR as nested tuples: ("ofText",) ("src",) ("cwd",) ("parent", e) ("join", a, b); the pseudo value
+# IR as nested tuples: ("ofText",) ("src",) ("cwd",) ("parent", e) ("join", a, b) ("expanduser", e); the pseudo value
 # ("text",) stands for `self.path` (only legal under Path(...) / startswith / endswith).
 def _pexpr(node, env):
     if isinstance(node, ast.Name):
@@ -77,6 +77,8 @@ def _pexpr(node, env):
             return ("cwd",)
         if isinstance(f, ast.Attribute) and f.attr == "joinpath" and len(node.args) == 1:
             return ("join", _path(f.value, env), _path(node.args[0], env))
+        if isinstance(f, ast.Attribute) and f.attr == "expanduser" and not node.args and not node.keywords:
+            return ("expanduser", _path(f.value, env))
         raise ExtractError(f"resolved_path: unknown call {ast.unparse(node)}")
     if isinstance(node, ast.BinOp) and isinstance(node.op, ast.Div):
         return ("join", _path(node.left, env), _path(node.right, env))
@@ -147,6 +149,8 @@ def _lean_pexpr(e) -> str:
         return f".parent ({_lean_pexpr(e[1])})"
     if e[0] == "join":
         return f".join ({_lean_pexpr(e[1])}) ({_lean_pexpr(e[2])})"
+    if e[0] == "expanduser":
+        return f".expanduser ({_lean_pexpr(e[1])})"
     raise ExtractError(f"cannot emit {e!r}")
 
 
@@ -210,19 +214,19 @@ def extract_recipe() -> str:
     fn = _method(_find_class(parse_file("expressions/path.py"), "NixPath"), mname)
     env: dict = {}
     guards: list[tuple[str, str]] = []
+    earlies: list[tuple] = []   # `if cond: return X` statements seen so far, in order
     result = None
 
-    def run(stmts, pending):
-        """pending: None, or (cond, early_value) of an `if cond: return X` seen before."""
+    def run(stmts):
         nonlocal result
-        for i, st in enumerate(stmts):
+        for st in stmts:
             if _is_doc(st) or isinstance(st, ast.Pass):
                 continue
             if isinstance(st, ast.If) and len(st.body) == 1 and _raised(st.body[0]) and not st.orelse:
                 exc = _raised(st.body[0])
                 if exc not in ERR:
                     raise ExtractError(f"resolved_path raises {exc}")
-                if pending:
+                if earlies:
                     raise ExtractError("raise after an early return")
                 guards.append((_lean_cond(_pcond(st.test, env)), ERR[exc]))
                 continue
@@ -249,28 +253,26 @@ def extract_recipe() -> str:
                         env[name] = ("ite", cond, a, b)
                 continue
             if isinstance(st, ast.If) and len(st.body) == 1 and isinstance(st.body[0], ast.Return) \
-                    and not st.orelse and not pending:
-                cond = _pcond(st.test, env)
-                early = _path(st.body[0].value, env)
-                run(stmts[i + 1:], (cond, early))
-                return
+                    and st.body[0].value is not None and not st.orelse:
+                earlies.append((_pcond(st.test, env), _path(st.body[0].value, env)))
+                continue
             if isinstance(st, ast.If) and len(st.body) == 1 and isinstance(st.body[0], ast.Return) \
-                    and len(st.orelse) == 1 and isinstance(st.orelse[0], ast.Return) and not pending:
+                    and len(st.orelse) == 1 and isinstance(st.orelse[0], ast.Return):
                 result = ("ite", _pcond(st.test, env), _path(st.body[0].value, env), _path(st.orelse[0].value, env))
                 return
             if isinstance(st, ast.Return) and st.value is not None:
                 v = _pexpr(st.value, env)
                 if v == ("text",):
                     raise ExtractError("resolved_path returns raw text")
-                if pending:
-                    if v[0] == "ite":
-                        raise ExtractError("resolved_path: nested conditional")
-                    v = ("ite", pending[0], pending[1], v)
+                if v[0] != "ite" and earlies:
+                    # `if c: return a` … `return b` is the conditional `a if c else b`
+                    c, a = earlies.pop()
+                    v = ("ite", c, a, v)
                 result = v
                 return
             raise ExtractError(f"resolved_path: unsupported statement {ast.unparse(st)[:60]!r}")
 
-    run(fn.body, None)
+    run(fn.body)
     if result is None:
         raise ExtractError("resolved_path: no return")
     if result[0] != "ite":
@@ -279,7 +281,8 @@ def extract_recipe() -> str:
     if _is_disj(cond):
         cond, a, b = _negate(cond), b, a
     gs = ", ".join(f"({c}, {e})" for c, e in guards)
-    return (f"{{ guards := [{gs}], cond := {_lean_cond(cond)}, "
+    es = ", ".join(f"({_lean_cond(c)}, {_lean_pexpr(e)})" for c, e in earlies)
+    return (f"{{ guards := [{gs}], early := [{es}], cond := {_lean_cond(cond)}, "
             f"thenE := {_lean_pexpr(a)}, elseE := {_lean_pexpr(b)} }}")
 
 
